@@ -80,6 +80,9 @@ var (
 	errScheduleKeyMustBeString = errors.New(
 		"schedule key must be a string",
 	)
+	errInvalidScheduleKey = errors.New(
+		"schedule key must be one of start, stop, restart",
+	)
 	errInvalidSignal                      = errors.New("invalid signal")
 	errInvalidEnvValue                    = errors.New("invalid value for env")
 	errArgsMustBeConvertibleToIntOrString = errors.New(
